@@ -11,6 +11,7 @@ Inductive event :=
 | EvRx (now : Z) (f : rxframe)                     (* a received Ethernet / 802.15.4 frame *)
 | EvDispatch (now : Z) (dst : ipaddr) (tag : Z)    (* an IP packet handed to dispatch_ip *)
 | EvAddrs (l : list cidr)                          (* update_ip_addrs *)
+| EvSetHw (hw : Z)                                 (* set_hardware_addr *)
 | EvRoutes (r : list route).                       (* any change of the route table *)
 
 Definition stamp (now : Z) (fr : list frame) : list (Z * frame) := map (pair now) fr.
@@ -20,6 +21,7 @@ Definition nh_step (i : iface) (e : event) : outcome (iface * list (Z * frame)) 
   | EvRx now f => do '(i', fr) <- nh_process_rx i now f; Ok (i', stamp now fr)
   | EvDispatch now dst tag => do '(i', fr, _) <- nh_dispatch_ip i dst tag now; Ok (i', stamp now fr)
   | EvAddrs l => Ok (nh_update_ip_addrs i l, [])
+  | EvSetHw hw => do i' <- nh_set_hardware_addr i hw; Ok (i', [])
   | EvRoutes r => Ok (set_routes i r, [])
   end.
 
@@ -60,6 +62,8 @@ Definition link_ok (i : iface) (f : rxframe) : bool :=
   | RxV4Echo e _ _ dst => eth_is_unicast e || v4_is_multicast dst || nh_is_broadcast_v4 i dst
   | RxV6 e _ _ dst _ _ => eth_is_unicast e || v6_is_multicast dst
   | Rx154 _ ldst _ _ dst _ _ => negb (ldst =? IEEE_BROADCAST) || v6_is_multicast dst
+  | RxV4Bad e _ _ dst => eth_is_unicast e || v4_is_multicast dst || nh_is_broadcast_v4 i dst
+  | RxJunk _ => true
   end.
 
 (* frame reaches the IP layer of this interface: Ethernet frames on Ethernet for our station /
@@ -102,6 +106,9 @@ Definition rx_log (i : iface) (now : Z) (f : rxframe) : list cop :=
         if v4_accept i src dst && nh_is_unicast_v4 i dst then [CReset (V4 src) esrc now] else []
     | RxV6 _ esrc src dst hop p => v6_log i now esrc src dst hop p
     | Rx154 _ _ lsrc src dst hop p => v6_log i now lsrc src dst hop p
+    | RxV4Bad _ esrc src dst =>
+        if v4_accept i src dst && nh_is_unicast_v4 i dst then [CReset (V4 src) esrc now] else []
+    | RxJunk _ => []
     end.
 
 Definition ev_log (i : iface) (e : event) : list cop :=
@@ -109,6 +116,7 @@ Definition ev_log (i : iface) (e : event) : list cop :=
   | EvRx now f => rx_log i now f
   | EvDispatch _ _ _ => []
   | EvAddrs _ => [CFlush]
+  | EvSetHw _ => []
   | EvRoutes _ => []
   end.
 
@@ -362,21 +370,22 @@ Qed.
 
 Ltac done_idle H := inversion H; subst; apply step_ok_idle.
 
-Lemma process_ipv4_echo_ok : forall i now shw src dst i' fr,
-  nh_process_ipv4_echo i now shw src dst = Ok (i', fr) ->
+Lemma process_ipv4_echo_ok : forall i now shw src dst l4ok i' fr,
+  nh_process_ipv4_echo i now shw src dst l4ok = Ok (i', fr) ->
   step_ok i i' now (if v4_accept i src dst && nh_is_unicast_v4 i dst then [CReset (V4 src) shw now] else []) fr.
 Proof.
-  intros i now shw src dst i' fr H. unfold nh_process_ipv4_echo, v4_accept in *.
+  intros i now shw src dst l4ok i' fr H. unfold nh_process_ipv4_echo, v4_accept in *.
   destruct (nh_is_unicast_v4 i src) eqn:US; destruct (v4_is_unspecified src) eqn:Z0;
     cbn [negb andb orb] in *; try (done_idle H);
   (destruct (nh_has_ip_addr i (V4 dst)); destruct (nh_has_multicast_group i (V4 dst));
    destruct (nh_is_broadcast_v4 i dst) eqn:BD; cbn [negb andb orb] in *; try (done_idle H));
-  (destruct (nh_is_unicast_v4 i dst) eqn:UD; autorewrite with nhc in H; rewrite ?US, ?UD, ?BD in H;
+  (destruct (nh_is_unicast_v4 i dst) eqn:UD; destruct l4ok; autorewrite with nhc in H; rewrite ?US, ?UD, ?BD in H;
    cbn [negb andb orb] in H;
-   [ first [ apply (step_ok_ops_respond i now [CReset (V4 src) shw now] _ _ _ _ eq_refl H)
-           | inversion H; subst; apply (step_ok_ops i now [CReset (V4 src) shw now] eq_refl) ]
-   | try (destruct (nh_has_ipv4_source i));
-     first [ apply respond_idle in H; exact H | done_idle H ] ]).
+   try (destruct (nh_has_ipv4_source i));
+   first [ apply (step_ok_ops_respond i now [CReset (V4 src) shw now] _ _ _ _ eq_refl H)
+         | inversion H; subst; apply (step_ok_ops i now [CReset (V4 src) shw now] eq_refl)
+         | apply respond_idle in H; exact H
+         | done_idle H ]).
 Qed.
 
 Lemma process_ndisc_ok : forall i now src dst p i' fr,
@@ -393,18 +402,21 @@ Lemma process_ndisc_ok : forall i now src dst p i' fr,
      end) fr.
 Proof.
   intros i now src dst p i' fr H. unfold nh_process_ndisc in H.
-  destruct p as [|target [l|] ovr|target [l|]]; try (done_idle H).
+  destruct p as [|target [l|] ovr|target [l|]|]; try (done_idle H).
   - destruct (hw_option_ok i l); cbn [negb andb] in *; [|done_idle H].
     destruct (hw_is_unicast i l); destruct (v6_x_is_unicast target); cbn [negb andb orb] in *; try (done_idle H).
     destruct (ovr || negb (answer_found (neigh_lookup (if_cache i) (V6 src) now))); [|done_idle H].
     inversion H; subst. apply (step_ok_ops i now [CFill (V6 src) l now] eq_refl).
-  - destruct (hw_option_ok i l); cbn [negb andb] in *; [|done_idle H].
-    destruct (hw_is_unicast i l); destruct (v6_x_is_unicast target); cbn [negb andb orb] in *; try (done_idle H).
+  - destruct (v6_x_is_unicast target); cbn [negb andb orb] in *;
+      [|rewrite !andb_false_r; done_idle H].
+    destruct (hw_option_ok i l); cbn [negb andb] in *; [|done_idle H].
+    destruct (hw_is_unicast i l); cbn [negb andb orb] in *; try (done_idle H).
     autorewrite with nhc in H.
     destruct ((nh_has_solicited_node i dst || nh_has_ip_addr i (V6 dst)) && nh_has_ip_addr i (V6 target)).
     + apply (step_ok_ops_respond i now [CFill (V6 src) l now] _ _ _ _ eq_refl H).
     + inversion H; subst. apply (step_ok_ops i now [CFill (V6 src) l now] eq_refl).
-  - destruct ((nh_has_solicited_node i dst || nh_has_ip_addr i (V6 dst)) && nh_has_ip_addr i (V6 target)).
+  - destruct (v6_x_is_unicast target); cbn [negb] in *; [|done_idle H].
+    destruct ((nh_has_solicited_node i dst || nh_has_ip_addr i (V6 dst)) && nh_has_ip_addr i (V6 target)).
     + apply respond_idle in H; exact H.
     + done_idle H.
 Qed.
@@ -458,7 +470,7 @@ Proof.
    [ assert (S1 : step_ok i (set_cache i (neigh_reset_expiry_if_existing (if_cache i) (V6 src) shw now)) now
                     [CReset (V6 src) shw now] [])
        by (apply (step_ok_ops i now [CReset (V6 src) shw now] eq_refl));
-     destruct p as [|target ll ovr|target ll];
+     destruct p as [|target ll ovr|target ll|];
      [ destruct (hop =? 255); cbn [app];
        apply (step_ok_ops_respond i now [CReset (V6 src) shw now] _ _ _ _ eq_refl H)
      | destruct (hop =? 255);
@@ -468,11 +480,13 @@ Proof.
      | destruct (hop =? 255);
        [ apply process_ndisc_ok in H; autorewrite with nhc in H;
          apply (step_ok_trans _ _ _ _ _ _ _ _ S1 H)
-       | inversion H; subst; cbn [app]; exact S1 ] ]
-   | destruct p as [|target ll ovr|target ll];
+       | inversion H; subst; cbn [app]; exact S1 ]
+     | destruct (hop =? 255); inversion H; subst; cbn [app]; exact S1 ]
+   | destruct p as [|target ll ovr|target ll|];
      [ destruct (hop =? 255); apply respond_idle in H; exact H
      | destruct (hop =? 255); [apply process_ndisc_ok in H; exact H | done_idle H]
-     | destruct (hop =? 255); [apply process_ndisc_ok in H; exact H | done_idle H] ] ]).
+     | destruct (hop =? 255); [apply process_ndisc_ok in H; exact H | done_idle H]
+     | destruct (hop =? 255); done_idle H ] ]).
 Qed.
 
 Lemma process_ethernet_ok : forall i now f i' fr, if_ether i = true ->
@@ -483,7 +497,7 @@ Proof.
                 negb (rx_edst f =? if_hw i)) = negb (eth_accept i (rx_edst f))).
   { unfold eth_accept. rewrite !negb_orb. reflexivity. }
   rewrite EA in H. unfold rx_log.
-  destruct f as [e op sha spa tpa|e esrc src dst|e esrc src dst hop p|panok ldst lsrc src dst hop p];
+  destruct f as [e op sha spa tpa|e esrc src dst|e esrc src dst hop p|panok ldst lsrc src dst hop p|e esrc src dst|e];
     cbn [medium_accept link_ok rx_edst] in *; rewrite ?ETH; cbn [negb andb].
   - destruct (eth_accept i e) eqn:A; cbn [negb] in *; [|done_idle H].
     destruct (nh_process_arp i now op sha spa tpa) as [i1 f1] eqn:P. inversion H; subst.
@@ -491,7 +505,7 @@ Proof.
   - destruct (eth_accept i e) eqn:A; cbn [negb] in *; [|done_idle H].
     rewrite <- !negb_orb in H.
     destruct (eth_is_unicast e || v4_is_multicast dst || nh_is_broadcast_v4 i dst); cbn [negb] in *.
-    + apply process_ipv4_echo_ok; exact H.
+    + apply process_ipv4_echo_ok in H; exact H.
     + done_idle H.
   - destruct (eth_accept i e) eqn:A; cbn [negb] in *; [|done_idle H].
     rewrite <- !negb_orb in H.
@@ -499,13 +513,19 @@ Proof.
     + apply process_ipv6_ok; exact H.
     + done_idle H.
   - destruct (eth_accept i ldst); done_idle H.
+  - destruct (eth_accept i e) eqn:A; cbn [negb] in *; [|done_idle H].
+    rewrite <- !negb_orb in H.
+    destruct (eth_is_unicast e || v4_is_multicast dst || nh_is_broadcast_v4 i dst); cbn [negb] in *.
+    + apply process_ipv4_echo_ok in H; exact H.
+    + done_idle H.
+  - destruct (eth_accept i e); done_idle H.
 Qed.
 
 Lemma process_ieee802154_ok : forall i now f i' fr, if_ether i = false ->
   nh_process_ieee802154 i now f = Ok (i', fr) -> step_ok i i' now (rx_log i now f) fr.
 Proof.
   intros i now f i' fr ETH H. unfold nh_process_ieee802154 in H. unfold rx_log.
-  destruct f as [e op sha spa tpa|e esrc src dst|e esrc src dst hop p|panok ldst lsrc src dst hop p];
+  destruct f as [e op sha spa tpa|e esrc src dst|e esrc src dst hop p|panok ldst lsrc src dst hop p|e esrc src dst|e];
     cbn [medium_accept link_ok rx_edst] in *; rewrite ?ETH; cbn [negb andb]; try (done_idle H).
   destruct panok; cbn [negb] in *; [|done_idle H].
   destruct (ldst =? IEEE_BROADCAST); destruct (v6_is_multicast dst); cbn [negb andb orb] in *;
@@ -587,22 +607,25 @@ Proof. intros; split; [exact I|]. split; [lia | intros t []]. Qed.
 
 (* what one event does *)
 Lemma step_spec : forall i e i' tfr, nh_step i e = Ok (i', tfr) ->
-  if_cap i' = if_cap i /\ if_ether i' = if_ether i /\ if_hw i' = if_hw i /\
+  if_cap i' = if_cap i /\ if_ether i' = if_ether i /\
   c_storage (if_cache i') = c_storage (cache_run (if_cap i) (if_cache i) (ev_log i e)) /\
   trate (su i) (su i') tfr.
 Proof.
-  intros i e i' tfr H. destruct e as [now f|now dst tag|l|r]; cbn [nh_step ev_log] in *.
+  intros i e i' tfr H. destruct e as [now f|now dst tag|l|hw|r]; cbn [nh_step ev_log] in *.
   - destruct (nh_process_rx i now f) as [[i1 f1]| |] eqn:P; simpl in H; try discriminate.
     inversion H; subst. apply process_rx_ok in P. destruct P as ((A&B&C&_) & S & R).
-    split; [exact C|]. split; [exact A|]. split; [exact B|]. split; [exact S|].
+    split; [exact C|]. split; [exact A|]. split; [exact S|].
     apply rate_ok_trate; exact R.
   - destruct (nh_dispatch_ip i dst tag now) as [[[i1 f1] r1]| |] eqn:P; simpl in H; try discriminate.
     inversion H; subst. apply dispatch_ip_rate in P. destruct P as ((A&B&C&_) & S & R).
-    split; [exact C|]. split; [exact A|]. split; [exact B|]. split; [exact S|].
+    split; [exact C|]. split; [exact A|]. split; [exact S|].
     apply rate_ok_trate; exact R.
-  - inversion H; subst. split; [reflexivity|]. split; [reflexivity|]. split; [reflexivity|].
+  - inversion H; subst. split; [reflexivity|]. split; [reflexivity|].
     split; [reflexivity | apply trate_nil].
-  - inversion H; subst. split; [reflexivity|]. split; [reflexivity|]. split; [reflexivity|].
+  - unfold nh_set_hardware_addr in H. destruct (hw_is_unicast i hw); simpl in H; [|discriminate].
+    inversion H; subst. split; [reflexivity|]. split; [reflexivity|].
+    split; [reflexivity | apply trate_nil].
+  - inversion H; subst. split; [reflexivity|]. split; [reflexivity|].
     split; [reflexivity | apply trate_nil].
 Qed.
 
@@ -615,25 +638,25 @@ Proof. intros. cbn [nh_log]. rewrite H. reflexivity. Qed.
 Lemma run_inv : forall evs i i' tfr log0,
   1 <= if_cap i -> cache_wf (if_cap i) (if_cache i) -> cache_inv log0 (if_cache i) ->
   nh_run i evs = Ok (i', tfr) ->
-  if_cap i' = if_cap i /\ if_ether i' = if_ether i /\ if_hw i' = if_hw i /\
+  if_cap i' = if_cap i /\ if_ether i' = if_ether i /\
   cache_wf (if_cap i) (if_cache i') /\ cache_inv (log0 ++ nh_log i evs) (if_cache i').
 Proof.
   induction evs as [|e r IH]; intros i i' tfr log0 Hcap WF INV H.
   - inversion H; subst. cbn [nh_log]. rewrite app_nil_r.
-    split; [reflexivity|]. split; [reflexivity|]. split; [reflexivity|]. split; assumption.
+    split; [reflexivity|]. split; [reflexivity|]. split; assumption.
   - cbn [nh_run] in H.
     destruct (nh_step i e) as [[i1 f1]| |] eqn:S; simpl in H; try discriminate.
     destruct (nh_run i1 r) as [[i2 f2]| |] eqn:R; simpl in H; try discriminate.
     inversion H; subst.
-    pose proof (step_spec _ _ _ _ S) as (C1 & C2 & C3 & ST & _).
+    pose proof (step_spec _ _ _ _ S) as (C1 & C2 & ST & _).
     destruct (cache_run_inv (if_cap i) (ev_log i e) log0 (if_cache i) Hcap WF INV) as [WF1 INV1].
     symmetry in ST.
     assert (WF1' : cache_wf (if_cap i1) (if_cache i1)) by (rewrite C1; eapply cache_wf_ext; eauto).
     assert (INV1' : cache_inv (log0 ++ ev_log i e) (if_cache i1)) by (eapply cache_inv_ext; eauto).
     assert (Hcap1 : 1 <= if_cap i1) by lia.
-    destruct (IH i1 i' f2 (log0 ++ ev_log i e) Hcap1 WF1' INV1' R) as (D1 & D2 & D3 & WF2 & INV2).
+    destruct (IH i1 i' f2 (log0 ++ ev_log i e) Hcap1 WF1' INV1' R) as (D1 & D2 & WF2 & INV2).
     rewrite (nh_log_cons _ _ _ _ _ S), app_assoc.
-    split; [congruence|]. split; [congruence|]. split; [congruence|].
+    split; [congruence|]. split; [congruence|].
     split; [rewrite <- C1; exact WF2 | exact INV2].
 Qed.
 
@@ -645,7 +668,7 @@ Proof.
     destruct (nh_step i e) as [[i1 f1]| |] eqn:S; simpl in H; try discriminate.
     destruct (nh_run i1 r) as [[i2 f2]| |] eqn:R; simpl in H; try discriminate.
     inversion H; subst.
-    pose proof (step_spec _ _ _ _ S) as (_ & _ & _ & _ & T).
+    pose proof (step_spec _ _ _ _ S) as (_ & _ & _ & T).
     eapply trate_app; [exact T | apply IH; exact R].
 Qed.
 
@@ -711,7 +734,7 @@ Lemma unicast_learned : forall ether hw cap evs i tfr dst now i' fr h,
 Proof.
   intros ether hw cap evs i tfr dst now i' fr h Hcap R B M L.
   assert (Hc : 1 <= if_cap (nh_init ether hw cap)) by exact Hcap.
-  destruct (run_inv evs _ _ _ [] Hc (init_wf ether hw cap ltac:(lia)) cache_inv_new R) as (_ & _ & _ & WF & INV).
+  destruct (run_inv evs _ _ _ [] Hc (init_wf ether hw cap ltac:(lia)) cache_inv_new R) as (_ & _ & WF & INV).
   cbn [app] in INV.
   apply lookup_hw_spec in L. destruct L as [(E1 & E2 & C)|(_ & C & _)]; [|discriminate].
   split; [exact E1|]. split; [exact E2|].
@@ -771,7 +794,7 @@ Lemma cache_bounded_run : forall ether hw cap evs i tfr, 1 <= cap ->
 Proof.
   intros ether hw cap evs i tfr Hcap R.
   assert (Hc : 1 <= if_cap (nh_init ether hw cap)) by exact Hcap.
-  destruct (run_inv evs _ _ _ [] Hc (init_wf ether hw cap ltac:(lia)) cache_inv_new R) as (_ & _ & _ & [ND LEN] & _).
+  destruct (run_inv evs _ _ _ [] Hc (init_wf ether hw cap ltac:(lia)) cache_inv_new R) as (_ & _ & [ND LEN] & _).
   split; [exact LEN | exact ND].
 Qed.
 
@@ -784,7 +807,7 @@ Lemma entry_expires_run : forall ether hw cap evs i tfr n now, 1 <= cap ->
 Proof.
   intros ether hw cap evs i tfr n now Hcap R F1 F2 h L.
   assert (Hc : 1 <= if_cap (nh_init ether hw cap)) by exact Hcap.
-  destruct (run_inv evs _ _ _ [] Hc (init_wf ether hw cap ltac:(lia)) cache_inv_new R) as (_ & _ & _ & _ & INV).
+  destruct (run_inv evs _ _ _ [] Hc (init_wf ether hw cap ltac:(lia)) cache_inv_new R) as (_ & _ & _ & INV).
   cbn [app] in INV.
   destruct (lookup_found_learned _ _ _ _ _ INV L) as (e & LE & LT).
   destruct (learned_60 _ _ _ _ _ LE LT) as (l1 & t0 & l2 & E & _ & C).
@@ -889,7 +912,7 @@ Definition fill_cause (i : iface) (f : rxframe) (k : ipaddr) (hw : Z) : Prop :=
   medium_accept i f = true /\ link_ok i f = true /\
   match f with
   | RxArp _ op sha spa tpa => k = V4 spa /\ hw = sha /\ arp_valid i op sha spa tpa = true
-  | RxV4Echo _ _ _ _ => False
+  | RxV4Echo _ _ _ _ | RxV4Bad _ _ _ _ | RxJunk _ => False
   | RxV6 _ _ src dst hop p | Rx154 _ _ _ src dst hop p =>
       k = V6 src /\ hop = 255 /\ v6_accept i src dst = true /\
       match p with
@@ -903,8 +926,9 @@ Definition fill_cause (i : iface) (f : rxframe) (k : ipaddr) (hw : Z) : Prop :=
 Definition refresh_cause (i : iface) (f : rxframe) (k : ipaddr) (hw : Z) : Prop :=
   medium_accept i f = true /\ link_ok i f = true /\
   match f with
-  | RxArp _ _ _ _ _ => False
-  | RxV4Echo _ esrc src dst => k = V4 src /\ hw = esrc /\ v4_accept i src dst = true /\ nh_is_unicast_v4 i dst = true
+  | RxArp _ _ _ _ _ | RxJunk _ => False
+  | RxV4Echo _ esrc src dst | RxV4Bad _ esrc src dst =>
+      k = V4 src /\ hw = esrc /\ v4_accept i src dst = true /\ nh_is_unicast_v4 i dst = true
   | RxV6 _ esrc src dst _ _ | Rx154 _ _ esrc src dst _ _ =>
       k = V6 src /\ hw = esrc /\ v6_accept i src dst = true /\ v6_x_is_unicast dst = true
   end.
@@ -936,7 +960,7 @@ Proof.
     + destruct (v6_x_is_unicast dst) eqn:U; [|destruct H].
       destruct H as [H|[]]; subst. repeat split; auto.
     + destruct (hop =? 255) eqn:HP; [|destruct H]. apply Z.eqb_eq in HP.
-      destruct p as [|target [l|] ovr|target [l|]]; try (destruct H; fail).
+      destruct p as [|target [l|] ovr|target [l|]|]; try (destruct H; fail).
       * match type of H with In _ (if ?c then _ else _) => destruct c eqn:C end; [|destruct H].
         apply andb_true_iff in C. destruct C as [C _]. apply andb_true_iff in C. destruct C as [C C3].
         apply andb_true_iff in C.
@@ -944,13 +968,16 @@ Proof.
       * match type of H with In _ (if ?c then _ else _) => destruct c eqn:C end; [|destruct H].
         apply andb_true_iff in C. destruct C as [C C3]. apply andb_true_iff in C.
         destruct H as [H|[]]; subst. repeat split; tauto. }
-  destruct f as [e o sha spa tpa|e esrc src dst|e esrc src dst hop p|panok ldst lsrc src dst hop p].
+  destruct f as [e o sha spa tpa|e esrc src dst|e esrc src dst hop p|panok ldst lsrc src dst hop p|e esrc src dst|e].
   - destruct (arp_valid i o sha spa tpa) eqn:V; [|destruct H].
     destruct H as [H|[]]; subst. repeat split; auto.
   - destruct (v4_accept i src dst && nh_is_unicast_v4 i dst) eqn:V; [|destruct H].
     apply andb_true_iff in V. destruct H as [H|[]]; subst. repeat split; tauto.
   - apply V6C in H. destruct op; try tauto.
   - apply V6C in H. destruct op; try tauto.
+  - destruct (v4_accept i src dst && nh_is_unicast_v4 i dst) eqn:V; [|destruct H].
+    apply andb_true_iff in V. destruct H as [H|[]]; subst. repeat split; tauto.
+  - destruct H.
 Qed.
 
 (* every operation of the learning history of a run belongs to one event, processed in the state
@@ -977,11 +1004,12 @@ Lemma fill_is_validated : forall evs i i' tfr k hw t, nh_run i evs = Ok (i', tfr
 Proof.
   intros evs i i' tfr k hw t R H.
   destruct (log_event _ _ _ _ _ R H) as (evs1 & e & evs2 & i1 & tf1 & E & R1 & I1).
-  destruct e as [now f|now dst tag|l|rt]; cbn [ev_log] in I1.
+  destruct e as [now f|now dst tag|l|hw0|rt]; cbn [ev_log] in I1.
   - apply rx_log_sound in I1. destruct I1 as [T C]. subst now.
     exists evs1, f, evs2, i1, tf1. auto.
   - destruct I1.
   - destruct I1 as [I1|[]]; discriminate.
+  - destruct I1.
   - destruct I1.
 Qed.
 
@@ -992,10 +1020,11 @@ Lemma refresh_is_traffic : forall evs i i' tfr k hw t, nh_run i evs = Ok (i', tf
 Proof.
   intros evs i i' tfr k hw t R H.
   destruct (log_event _ _ _ _ _ R H) as (evs1 & e & evs2 & i1 & tf1 & E & R1 & I1).
-  destruct e as [now f|now dst tag|l|rt]; cbn [ev_log] in I1.
+  destruct e as [now f|now dst tag|l|hw0|rt]; cbn [ev_log] in I1.
   - apply rx_log_sound in I1. destruct I1 as [T C]. subst now.
     exists evs1, f, evs2, i1, tf1. auto.
   - destruct I1.
   - destruct I1 as [I1|[]]; discriminate.
+  - destruct I1.
   - destruct I1.
 Qed.
